@@ -1196,6 +1196,8 @@ def run(repo: Repo, rep):
     from .generic import g_arg_constructor_parameters
     g_arg_constructor_parameters(repo, rep, lambda m: ".samplers." in m, floor=10,
                                  why="a sampler that ignores n_points / density / filter_fn / params-related arguments returns another number of rows than requested")
+    from .c15 import r1b_no_cache  # a non-static sampler that serves stored points returns the rows of an earlier call: they belong to that call's parameter rows, not to this one's
+    r1b_no_cache(repo, rep)
     r12_interval_boundary_grid(repo, rep)
     r13_operation_grids(repo, rep)
     r14_data_sampler_length(repo, rep)
